@@ -53,6 +53,8 @@ type Set struct {
 	// epoch at which statuses are read afterwards (Eq >= Er).
 	Er int `json:"resync_epoch"`
 	Eq int `json:"query_epoch"`
+	// excluded counts draws re-targeted because they would hit an open known finding.
+	excluded int
 }
 
 func (s Set) String() string {
@@ -86,6 +88,10 @@ type genCfg struct {
 	minN    int
 	maxN    int
 	cnrs    int
+	// noTombOnParent: known finding fpTombParent is open, do not generate its class.
+	noTombOnParent bool
+	// noExpiredParent: known finding fpExpParent is open, do not generate its class.
+	noExpiredParent bool
 }
 
 func blank(kind string, c, id int) uni.Spec {
@@ -208,6 +214,17 @@ func genSet(t *rapid.T, cfg genCfg) Set {
 				child(rEC, sp, true)
 			}
 		}
+		if cfg.noExpiredParent && len(s.expiredParentFamilies()) > 0 {
+			// excluded by construction: the parent header does not expire
+			s.excluded++
+			s.Families[fam].RootExp = -1
+			f.RootExp = -1
+			for i := range s.Members {
+				if s.Members[i].Fam == fam && s.Members[i].Spec.Parent >= 0 {
+					s.Members[i].Spec.ParentExp = -1
+				}
+			}
+		}
 		// some children carry their own expiration
 		for i := range s.Members {
 			if s.Members[i].Fam == fam && s.Members[i].Role != rPlain && rapid.IntRange(0, 4).Draw(t, "child-own-exp") == 0 {
@@ -224,15 +241,24 @@ func genSet(t *rapid.T, cfg genCfg) Set {
 				nT = 0
 			}
 		}
-		pickTarget := func(from []int, label string) int {
-			if len(from) == 1 || rapid.IntRange(0, 2).Draw(t, label+"-root") > 0 {
-				return from[0]
+		// Tombstones and locks target the family root only (the plain object or the
+		// split/EC parent): that is what DELETE / LOCK of a user object produce.
+		// Parts targeted individually are left to C01.
+		_ = targets
+		_ = lockTargets
+		hasParts := false
+		for _, m := range s.Members {
+			if m.Fam == fam {
+				hasParts = true
 			}
-			return from[rapid.IntRange(1, len(from)-1).Draw(t, label)]
+		}
+		if cfg.noTombOnParent && form != "plain" && hasParts && nT > 0 {
+			s.excluded++ // excluded by construction: tombstone on a parent with stored parts
+			nT = 0
 		}
 		for i := 0; i < nT && room(c, 1); i++ {
 			sp := blank(uni.Tombstone, c, alloc(c))
-			sp.Target = pickTarget(targets, "tomb-target")
+			sp.Target = f.Root
 			if rapid.Bool().Draw(t, "tomb-has-exp") { // tombstones are live when statuses are read
 				sp.Exp = rapid.IntRange(s.Eq, uni.MaxEpoch).Draw(t, "tomb-exp")
 			}
@@ -240,7 +266,7 @@ func genSet(t *rapid.T, cfg genCfg) Set {
 		}
 		for i := 0; i < nL && room(c, 1); i++ {
 			sp := blank(uni.Lock, c, alloc(c))
-			sp.Target = pickTarget(lockTargets, "lock-target")
+			sp.Target = f.Root
 			sp.Exp = exp("lock-exp")
 			add(fam, rLock, sp)
 		}
@@ -334,4 +360,79 @@ func (s Set) relatedPair() bool {
 		}
 	}
 	return false
+}
+
+// Known-finding fingerprints (root-cause classes), see /verif/known_findings.json.
+const (
+	// A tombstone of a split/EC parent read before a stored part that carries the
+	// parent header: the part is skipped (never indexed, no garbage mark) and
+	// parts tied only through it stay available.
+	fpTombParent = "C18:resync-tombstone-before-children-of-removed-parent"
+	// Rebuild with a live epoch source: the header of an already expired parent
+	// is indexed with the first part that carries it, every later part carrying
+	// it is refused ("object is expired") and skipped: never indexed, no garbage
+	// mark, which part survives depends on the blob order.
+	fpExpParent = "C18:resync-live-epoch-expired-parent-skips-later-parts"
+)
+
+// expiredParentFamilies returns the families with a parent header that is
+// expired at the rebuild epoch and carried by at least two stored parts.
+func (s Set) expiredParentFamilies() map[int]bool {
+	res := map[int]bool{}
+	for i, f := range s.Families {
+		if f.Form == "plain" || !expiredAt(f.RootExp, s.Er) {
+			continue
+		}
+		n := 0
+		for _, m := range s.Members {
+			if m.Fam == i && m.carriesParent() {
+				n++
+			}
+		}
+		if n >= 2 {
+			res[i] = true
+		}
+	}
+	return res
+}
+
+// famOf maps every address of interest to its family (-1: none).
+func (s Set) famOf(a oid.Address) int {
+	for _, m := range s.Members {
+		if m.addr() == a {
+			return m.Fam
+		}
+	}
+	for i, f := range s.Families {
+		if uni.Addr(f.Cnr, f.Root) == a {
+			return i
+		}
+	}
+	for _, m := range s.Members {
+		if m.Spec.First >= 0 && uni.Addr(m.Spec.Cnr, m.Spec.First) == a {
+			return m.Fam
+		}
+	}
+	return -1
+}
+
+// tombOnParentFamilies returns the families whose root is a split/EC parent
+// targeted by a tombstone while parts of it are stored.
+func (s Set) tombOnParentFamilies() map[int]bool {
+	res := map[int]bool{}
+	for _, t := range s.Members {
+		if t.Role != rTomb {
+			continue
+		}
+		f := s.Families[t.Fam]
+		if f.Form == "plain" || t.Spec.Target != f.Root {
+			continue
+		}
+		for _, m := range s.Members {
+			if m.Fam == t.Fam && m.Role != rTomb && m.Role != rLock {
+				res[t.Fam] = true
+			}
+		}
+	}
+	return res
 }
